@@ -95,14 +95,21 @@ ERROR_CLASSES: dict[str, dict[str, Any]] = {
     "branch_plus_128": {"scope": "asm", "text": "bra edge_zq\n.dw " + ", ".join(["0"] * 64) + "\nedge_zq:"},
     "branch_minus_129": {"scope": "asm", "text": "edgeb_zq:\n.dw " + ", ".join(["0"] * 63) + "\n.db 0\nbne edgeb_zq"},
     "unmapped_bank": {"scope": "asm", "text": "*=$UNMAPPED"},
+    # the 65c816 bus is 24 bits wide: an address above it is not mapped, whatever its low 24 bits are
+    "address_beyond_24_bits": {"scope": "asm", "text": "*=0x1008000\n.db 1"},
+    # code that runs off the end of the last mapped ROM bank into an unmapped bank
+    "run_off_mapped_rom": {"scope": "asm", "text": "*=$ROMEND\n.dl 0x111111, 0x222222"},
     "missing_incbin": {"scope": "asm", "text": ".incbin 'missing_zq.bin'"},
     "missing_table": {"scope": "asm", "text": ".table 'missing_zq.tbl'"},
     "missing_ips": {"scope": "asm", "text": ".include_ips 'missing_zq.ips', 0"},
 }
 
 
+ROM_END = {"low": 0x6FFFFC, "low2": 0xFFFFFC, "high": 0xFFFFFC}
+
+
 def error_node(klass: str, prog: progen.Prog) -> progen.Node:
-    text = ERROR_CLASSES[klass]["text"].replace("$UNMAPPED", hex(prog.unmapped_addr))
+    text = ERROR_CLASSES[klass]["text"].replace("$UNMAPPED", hex(prog.unmapped_addr)).replace("$ROMEND", hex(ROM_END.get(prog.mapping, 0)))
     return {"k": "error", "t": text}
 
 
@@ -335,6 +342,8 @@ def sub_cases(case: dict[str, Any], stats: Stats) -> Iterator[dict[str, Any]]:
     for klass in ERROR_CLASSES:
         if klass == "unmapped_bank" and not prog.unmapped_addr:
             continue
+        if klass in ("run_off_mapped_rom", "address_beyond_24_bits") and "map" in prog.features:
+            continue  # a program that installs its own mapping decides what is mapped
         ok_slots = [s for s in slots if applicable(klass, s)]
         if not ok_slots:
             continue
